@@ -1083,7 +1083,10 @@ impl SendKind {
         }
 
         let overriden_len = future.as_ref().map(|(_, len)| len.as_ref().copied());
-        if let Ok(data) = &data {
+        // A `304 Not Modified` has no body to take a range of: the conditional request wins over
+        // `range` (else the empty body makes every range unsatisfiable, and the client gets a 416).
+        let not_modified = response.status() == StatusCode::NOT_MODIFIED;
+        if let (Ok(data), false) = (&data, not_modified) {
             match data.apply_to_response(&mut response, overriden_len.flatten(), future.is_some()) {
                 Err(SanitizeError::RangeNotSatisfiable) => {
                     response = default_error(
